@@ -129,6 +129,13 @@ def _evaluate(col, p, shape, m, d, mm, dm, data_folded, tag):
                 col.tick(transitions=1)
                 if not abs(v - gotm) <= 1e-10 * max(1.0, abs(gotm) + 50.0 * n_used):
                     col.violation('C11:ll_multinom:scale_dependent', info, {'k': k, 'got': v, 'base': gotm})
+            # a model that the caller already scaled to the data's total, each total taken over that spectrum's own mask (masks may differ)
+            tm_own, td_own = float(model.sum()), float(data.sum())
+            if tm_own > 0 and td_own > 0:
+                v = float(Inference.ll_multinom(model * (td_own / tm_own), data))
+                col.tick(transitions=1)
+                if not abs(v - gotm) <= 1e-10 * max(1.0, abs(gotm) + 50.0 * n_used):
+                    col.violation('C11:ll_multinom:scale_dependent', dict(info, prescaled_to_data_total=True), {'got': v, 'base': gotm})
             osf = Inference.optimally_scaled_sfs(model, data)
             if not np.allclose(np.asarray(osf.data)[~mm], (cstar * m)[~mm], rtol=1e-12, atol=0):
                 col.violation('C11:optimally_scaled_sfs:value', info, '')
